@@ -17,6 +17,39 @@ CHECKS = {
             'Held-on-observed, not a proof: the quantifier over all histories is sampled.',
             'Trusts the simulated kernel (calibrated against real psutil/subprocess) and the hand-driven '
             'periodic check; on-demand, respawn=False and max_age>0 are outside the statement.'),
+    'C02': ('SIM', 'fault_enumeration',
+            'runtime monitoring with fault enumeration: worker death injected at every kernel-call boundary of the '
+            'stop sequence on the simulated kernel; completion-instant oracle over the process table',
+            'Every stop/restart/rm/quit/stop-all base history is replayed once per kernel-call boundary of its stop '
+            'sequence with a worker death landing exactly there; at the instant the reply is written every table '
+            'member must be reaped, and a random tail must not spawn for the stopped watcher. Complete over the '
+            'boundaries of each sampled base history; base histories are sampled.',
+            'Trusts the simulated kernel model (calibrated) and that deaths can only land at kernel-call '
+            'boundaries of the single-threaded daemon; a stop that never completes is left to C05.'),
+    'C03': ('SIM', 'exploration',
+            'runtime monitoring: per-pid signal episodes from the simulated kernel ledger in exact virtual time '
+            'checked against timing rules R1-R5',
+            'Grid over stop signals x graceful timeouts x reaction delays on both sides of (and exactly at) the '
+            'deadline x termination causes x stop_children trees; quick samples the grid, thorough enumerates it '
+            'with several variants per cell.',
+            'Virtual time is exact, so lateness is measured in polling steps; one polling step of slack is granted '
+            'as the statement does; before_signal vetoes belong to C14.'),
+    'C04': ('SIM', 'fault_enumeration',
+            'runtime monitoring: protocol snapshot (list/numprocesses/stats/status) vs simulated kernel process '
+            'table at quiescent points, with deaths injected at every kernel-call boundary',
+            'Random multi-watcher histories with hook outcomes and exec failures, plus per-boundary death sweeps of '
+            'the last operation; at each quiescent point the reported processes must equal the live children, no '
+            'zombie, no transient status.',
+            'Agreement is only demanded at quiescent points (one periodic check after the last event); stalled '
+            'histories are truncated and left to C05.'),
+    'C09': ('SIM', 'fault_enumeration',
+            'runtime monitoring: online reconstruction of the live set from the recorded PUB-socket event ledger '
+            'compared with the simulated kernel; deaths with every status placed at every kernel-call boundary',
+            'An online checker consumes every published event; at quiescent points its believed-alive set must '
+            'equal the kernel live set, every kernel spawn has exactly one spawn event, no pid is reaped twice, and '
+            'self/outside deaths carry the exact exit_code.',
+            'The SIM PUB socket records every message (no transport loss); exit_code is judged only for workers '
+            'the daemon had not signalled itself.'),
 }
 
 NOT_YET = {
